@@ -127,7 +127,7 @@ type sparser struct {
 }
 
 func (p *sparser) peek() tok { return p.toks[p.p] }
-func (p *sparser) next() tok  { t := p.toks[p.p]; p.p++; return t }
+func (p *sparser) next() tok { t := p.toks[p.p]; p.p++; return t }
 func (p *sparser) isOp(s string) bool {
 	t := p.peek()
 	return t.kind == "op" && t.s == s
@@ -432,13 +432,13 @@ func (p *sparser) parsePrimary() SExpr {
 // ---- contract files
 
 type Clause struct {
-	Trusted bool // assumed at call sites, not an obligation of the body (justified elsewhere, listed in evidence)
-	Local   bool // post-condition over the function's locals: an obligation of the function, not visible to callers
+	Trusted bool             // assumed at call sites, not an obligation of the body (justified elsewhere, listed in evidence)
+	Local   bool             // post-condition over the function's locals: an obligation of the function, not visible to callers
 	Witness map[string]SExpr // hints: witnesses for the outermost existential(s) of the clause
-	Label string
-	Expr  SExpr
-	Text  string
-	Pos   string
+	Label   string
+	Expr    SExpr
+	Text    string
+	Pos     string
 }
 
 type LoopSpec struct {
@@ -456,11 +456,11 @@ type LetDef struct {
 type AssignsItem struct {
 	Computed bool   // the write set computed from the function's own body (plus whatever else is listed)
 	Callback string // effects(<named func type>): whatever that callback type's contract assigns
-	All   bool
-	Text  string
-	Expr  SExpr  // location-level: expr.field / expr[*]
-	TypeT string // type-level: T::field
-	Field string
+	All      bool
+	Text     string
+	Expr     SExpr  // location-level: expr.field / expr[*]
+	TypeT    string // type-level: T::field
+	Field    string
 }
 
 // keySpec is the readKeys form of a type-level item: T::field, elems[T] or map[K]V
@@ -481,33 +481,34 @@ type CallbackSpec struct {
 }
 
 type Contract struct {
-	Pkg        string // package path
-	Key        string // function key within package, e.g. "(*run).getText", "dateComparison", "(*session).tryToResume$1"
-	File       string
-	Requires   []Clause
-	Ensures    []Clause
-	Assigns    []AssignsItem
-	HasAssigns bool
-	Loops      map[int]*LoopSpec
-	Lets       []LetDef
-	NoPanic    bool
+	Pkg          string // package path
+	Key          string // function key within package, e.g. "(*run).getText", "dateComparison", "(*session).tryToResume$1"
+	File         string
+	Requires     []Clause
+	Ensures      []Clause
+	Assigns      []AssignsItem
+	HasAssigns   bool
+	Loops        map[int]*LoopSpec
+	Lets         []LetDef
+	NoPanic      bool
 	NoPanicUntil string
-	Pure       bool     // result is a function of the arguments (and Reads)
-	Reads      []string // heap arrays (T::field) a pure function depends on
-	Trusted    bool     // ext contract: assumed, body not verified
-	Callbacks  map[string]*CallbackSpec
-	Inline     bool // force inlining at call sites instead of contract
-	Opaque     bool // never inline, havoc
-	Iface      bool // contract for an interface method
-	GhostCalls []Clause
-	Records    []Clause // history tokens: uninterpreted predicates asserted of the call's arguments/results (assumed at call sites, nothing to check)
-	Reveal     []string // opaque predicates whose definitions are expanded when verifying this function
-	FrameCalls []string // callees abstracted by the assigns clause of their own contract (requires / ensures not used)
-	HavocCalls []string // callees whose calls are abstracted by their computed write set here (their contracts/bodies are not used)
-	Forget     []string // "callee" or "callee:label": callee ensures that are not imported when verifying this function (keeps queries small)
-	Uses       []string // axioms to include when verifying this function
-	Implements []string // pkg.Iface.Method interface contracts this function must satisfy
-	Probes     []LetDef // replay probes: named spec expressions evaluated in the entry state
+	Pure         bool     // result is a function of the arguments (and Reads)
+	Reads        []string // heap arrays (T::field) a pure function depends on
+	Trusted      bool     // ext contract: assumed, body not verified
+	FrameTrusted bool     // the assigns clause is assumed, the rest verified
+	Callbacks    map[string]*CallbackSpec
+	Inline       bool // force inlining at call sites instead of contract
+	Opaque       bool // never inline, havoc
+	Iface        bool // contract for an interface method
+	GhostCalls   []Clause
+	Records      []Clause // history tokens: uninterpreted predicates asserted of the call's arguments/results (assumed at call sites, nothing to check)
+	Reveal       []string // opaque predicates whose definitions are expanded when verifying this function
+	FrameCalls   []string // callees abstracted by the assigns clause of their own contract (requires / ensures not used)
+	HavocCalls   []string // callees whose calls are abstracted by their computed write set here (their contracts/bodies are not used)
+	Forget       []string // "callee" or "callee:label": callee ensures that are not imported when verifying this function (keeps queries small)
+	Uses         []string // axioms to include when verifying this function
+	Implements   []string // pkg.Iface.Method interface contracts this function must satisfy
+	Probes       []LetDef // replay probes: named spec expressions evaluated in the entry state
 }
 
 type LemmaStep struct {
@@ -570,16 +571,16 @@ type ImmutableDef struct {
 
 type SpecFile struct {
 	Immutables []ImmutableDef
-	Path      string
-	Pkg       string
-	Contracts []*Contract
-	Pures     []*PureDef
-	Axioms    []*AxiomDef
-	Ghosts    []*GhostDef
-	Lemmas    []*Lemma
+	Path       string
+	Pkg        string
+	Contracts  []*Contract
+	Pures      []*PureDef
+	Axioms     []*AxiomDef
+	Ghosts     []*GhostDef
+	Lemmas     []*Lemma
 }
 
-var keywordRe = regexp.MustCompile(`^(package|func|interface|requires|ensures|assigns|invariant|decreases|loop|pure|pred|axiom|ghost|nopanic|let|letold|reads|trusted|callback|cb_requires|cb_ensures|cb_assigns|cb_pure|inline|opaque|modifies|implements|lemma|call|assert|probe|uses|records|witness|forget|checks|havocs|reveal|immutable|ensures_trusted|frames)\b`)
+var keywordRe = regexp.MustCompile(`^(package|func|interface|requires|ensures|assigns|invariant|decreases|loop|pure|pred|axiom|ghost|nopanic|let|letold|reads|trusted|callback|cb_requires|cb_ensures|cb_assigns|cb_pure|inline|opaque|modifies|implements|lemma|call|assert|probe|uses|records|witness|forget|checks|havocs|reveal|immutable|ensures_trusted|frames|frame_trusted)\b`)
 
 var labelRe = regexp.MustCompile(`^\[([A-Za-z0-9_./-]+)\]\s*`)
 
@@ -857,6 +858,10 @@ func ParseSpecFile(path string, data []byte, defaultPkg string) (*SpecFile, erro
 			}
 		case "trusted":
 			cur.Trusted = true
+		case "frame_trusted":
+			// the assigns clause is assumed (the effect analysis over the coarse call graph cannot establish it); the
+			// ensures clauses are still obligations of the body. Listed as an assumption in the evidence.
+			cur.FrameTrusted = true
 		case "inline":
 			cur.Inline = true
 		case "opaque":
